@@ -397,6 +397,9 @@ def mode_commands(ctx: Ctx, built: bool, thorough: bool) -> None:
             else:
                 cls = "other"
             ctx.violation(f"constructor-emits-undecodable-frame:{name}:{cls}", f"{name}{a} built {cmd} which the library's decoder rejects", case, "input")
+        elif kind == "sm" and (a[0] or 0) in (0, 1, 6) and a[1] is not None:
+            ctx.violation("out-of-domain-arguments-accepted:set_system_mode:until-with-a-mode-that-cannot-carry-one",
+                          f"{name}{a} is not refused: it builds {cmd}, which decodes to {dec} -- the end time asked for is silently dropped", case, "input")
         elif dec != asked(kind, a, dec):
             ctx.violation(f"decoded-value-differs:{name}:mode-command", f"{name}{a} -> {cmd}: decoded {dec}, asked for {asked(kind, a, dec)}", case, "input")
     if not built:
